@@ -46,7 +46,8 @@ pub trait VecAggValidExt<T: IsNone>: Vec1View<T> {
         if n == 0 {
             return Ok(f64::NAN);
         } else if n == 1 {
-            return Ok(slc[0].clone().cast());
+            // the only valid element is not necessarily the first one
+            return Ok(slc.titer().vfirst().unwrap().cast());
         }
         let len_1 = (n - 1).f64();
         let (q, i, j, vi, vj) = if q <= 0.5 {
